@@ -77,15 +77,24 @@ def exec_WS(t):
 
 
 def exec_WR(t):
-    s, n, f, op, a, b = t
+    s, n, f, op, a, b = t[:6]
     signed, n, f = s == 's', int(n), int(f)
     a, b = int(a), int(b)
+    sr, nr, route = (t[6] == 's', int(t[7]), t[8]) if len(t) > 6 else (signed, n, 'out')
     import fxpmath
     try:
         x = Fxp(a, signed, n, f, raw=True)
         y = Fxp(b, signed, n, f, raw=True)
-        out = Fxp(None, signed, n, f, overflow='wrap')
-        z = {'add': fxpmath.add, 'sub': fxpmath.sub, 'mul': fxpmath.mul}[op](x, y, out=out)
+        out = Fxp(None, sr, nr, f, overflow='wrap')
+        if route == 'out':
+            z = {'add': fxpmath.add, 'sub': fxpmath.sub, 'mul': fxpmath.mul}[op](x, y, out=out)
+        elif route == 'npout':
+            z = {'add': np.add, 'sub': np.subtract, 'mul': np.multiply}[op](x, y, out=out)
+        else:                     # the register is configured on the first operand: x + y lands in it
+            x.config.op_out = out
+            z = {'add': lambda: x + y, 'sub': lambda: x - y, 'mul': lambda: x * y}[op]()
+        if z is not out:
+            return ['NOTOUT']
         return [str(codes_of(z)[0])]
     except Exception as e:
         return [exc_token(e)]
@@ -165,6 +174,15 @@ def generate(tier, rng):
         if n <= 52 and op == 'mul' and n > 26:
             continue
         yield 'WR %s %d 0 %s %d %d' % ('s' if signed else 'u', n, op, max(lo, min(hi, a)), max(lo, min(hi, b)))
+        # the same result landing in a register of another width / signedness (narrower: high bits dropped; wider: a negative
+        # difference of unsigned operands still wraps to the register's modulus), by out=, np.<op>(out=) and config.op_out
+        sr = rng.random() < 0.5
+        if signed and not sr:
+            continue      # a signed result is refused by an unsigned holder (ValueError): not a store
+        nr = max(1 + int(sr), n + rng.choice([-3, -1, 1, 1, 2, 5, 20]))
+        if nr <= 52 or n >= 64:
+            yield 'WR %s %d 0 %s %d %d %s %d %s' % ('s' if signed else 'u', n, op, max(lo, min(hi, a)), max(lo, min(hi, b)),
+                                                 's' if sr else 'u', nr, rng.choice(['out', 'out', 'npout', 'config']))
 
 
 def nontrivial(full_line, model):
